@@ -159,7 +159,12 @@ func entryLocks(c *Ctx, fn *ssa.Function, depth int) lockset {
 	if fn.Parent() != nil {
 		// a function literal handed to a lock wrapper (t.locked(func() { … })): it runs with what the wrapper holds around the
 		// call of its parameter
-		return wrapperLocks(c, fn, depth)
+		if ls := wrapperLocks(c, fn, depth); len(ls) > 0 {
+			return ls
+		}
+		// a literal that its maker hands back to be called later (current := t.newGeneration(); ...; if current() {...}): what
+		// every one of its call sites holds (by access path: the literal and its callers name the same object alike)
+		return returnedLiteralLocks(c, fn, depth)
 	}
 	if exportedName(fn.Name()) {
 		return lockset{}
@@ -689,4 +694,55 @@ func boundLockEvent(call *ssa.Call) (string, string) {
 	m := pv.String()
 	m = strings.TrimPrefix(m, "param:")
 	return m, name
+}
+
+// returnedLiteralLocks: fn is a function literal that its enclosing function returns; the locks held at every call that
+// resolves to it (intersection), empty when there is no such call or the literal is used in any other way we can see.
+func returnedLiteralLocks(c *Ctx, fn *ssa.Function, depth int) lockset {
+	parent := fn.Parent()
+	if parent == nil {
+		return lockset{}
+	}
+	returned := false
+	for _, rv := range returnedBy(parent, 0) {
+		if mc, ok := rv.(*ssa.MakeClosure); ok && mc.Fn == ssa.Value(fn) {
+			returned = true
+		}
+	}
+	if !returned {
+		return lockset{}
+	}
+	var res lockset
+	n := 0
+	for _, host := range c.Funcs {
+		if rootFn(host).Pkg != rootFn(fn).Pkg || host == fn {
+			continue
+		}
+		var held map[ssa.Instruction]lockset
+		instrs(host, func(_ *ssa.BasicBlock, _ int, in ssa.Instruction) {
+			call, ok := in.(*ssa.Call)
+			if !ok || call.Call.IsInvoke() {
+				return
+			}
+			if _, isLd := call.Call.Value.(*ssa.UnOp); !isLd {
+				return
+			}
+			if resolveFuncValue(call.Call.Value, 0) != fn {
+				return
+			}
+			if held == nil {
+				held = locksIn(host, entryLocks(c, host, depth+1))
+			}
+			n++
+			if res == nil {
+				res = held[call].clone()
+			} else {
+				res = meetLocks(res, held[call])
+			}
+		})
+	}
+	if n == 0 || res == nil {
+		return lockset{}
+	}
+	return res
 }
